@@ -51,7 +51,7 @@ class Contract:
                  props=(), hooks=None, locals=None, defaults=None, is_property=False,
                  uf_params=None, assumed=False, note="", ghost=None, exc_props=None,
                  stop_ensures=(), bounded=(), globals=None, hints=None, yields_range=None,
-                 recursion_measure=None):
+                 recursion_measure=None, result_expr=None, sets=None):
         self.name = name
         self.short = name.split(".")[-1]
         self.params = OrderedDict(params)     # name -> type descriptor
@@ -86,6 +86,11 @@ class Contract:
         # well-founded recursion: a recursive call (through its wrapper contract) must strictly
         # decrease this non-negative measure of the arguments
         self.recursion_measure = recursion_measure
+        # the result is exactly this expression of the arguments / pre-state (also listed among
+        # the ensures and proved on the body): callers get the term itself instead of a fresh symbol
+        self.result_expr = result_expr
+        # constructor-style effect: field := expression over the arguments (exact, no havoc)
+        self.sets = dict(sets or {})
 
     def default_value(self, nm, engine):
         from .engine import State
@@ -110,13 +115,16 @@ class Contract:
 
 
 class ClassSpec:
-    def __init__(self, name, module, bases=(), fields=(), invariant=(), ghost_fields=()):
+    def __init__(self, name, module, bases=(), fields=(), invariant=(), ghost_fields=(), index_field=None,
+                 ignored_fields=()):
         self.name = name
         self.module = module
         self.bases = tuple(bases)
         self.fields = OrderedDict(fields)      # field -> type descriptor
         self.invariant = list(invariant)       # [(label, expr)]
         self.ghost_fields = OrderedDict(ghost_fields)
+        self.index_field = index_field        # the list field obj[i] / len(obj) read (specifications)
+        self.ignored_fields = set(ignored_fields)   # bookkeeping fields that are not modelled
 
 
 class Registry:
@@ -134,6 +142,8 @@ class Registry:
         self._ghost_trees = {}
         self.aliases = {}
         self.arith_lemmas = {}
+        self.class_aliases = {}
+        self.axiom_instances = {}
         self.spec_axiom_text = {}
         self.z3_definitions = {}     # spec function -> [(label, formula)]: definitional axioms
         self.z3_lemmas = {}          # spec function -> [(label, formula)]: proved by induction
@@ -174,6 +184,16 @@ class Registry:
         formulas: forall/exists over integers).  They are added to exactly the VCs that mention
         the function, and listed in the evidence as the *definition* of the spec function."""
         self.spec_axiom_text.setdefault(fname, []).extend(axioms)
+
+    def axiom_schema(self, fname, label, int_params, real_params, body):
+        """A definitional axiom of spec function `fname`, given as an open formula: it is closed
+        universally where the function is mentioned, and can be instantiated by hand at a hint
+        site with ("use", label, [args]) when the solver's triggers do not find the instance."""
+        closed = "forall_int(lambda %s: forall_real(lambda %s: %s))" % (
+            ", ".join(int_params), ", ".join(real_params), body) if real_params else \
+            "forall_int(lambda %s: %s)" % (", ".join(int_params), body)
+        self.spec_axiom_text.setdefault(fname, []).append((label, closed))
+        self.axiom_instances[label] = (list(int_params) + list(real_params), body)
 
     def arith_lemma(self, name, params, hyps, concl, props=()):
         """A universally quantified arithmetic fact, proved on its own (small, stable query) by
